@@ -10,5 +10,5 @@ Set Extraction KeepSingleton.
 Extraction "model.ml"
   run_parse run_build run_build_chunk run_build_item m_calc chunk_calc item_calc
   spec_build2 spec_parse2 spec_chunk spec_item run_hist chunk_of_hist final_config
-  run_helper_pad run_helper_hdr run_helper_chk
+  run_helper_pad run_helper_hdr run_helper_chk run_helper_phdr run_build_unchecked run_build_fci fci_calc
   N.of_nat N.to_nat N.add N.mul.
